@@ -127,9 +127,25 @@ func c05Render(r interface{}) string {
 	case c05Err:
 		return "v" + strconv.Itoa(int(x))
 	case int:
+		if x%5 != 4 {
+			return "X:int-" + strconv.Itoa(x)
+		}
 		return "v" + strconv.Itoa(x)
 	case string:
+		if !strings.HasPrefix(x, "s") {
+			return "X:string-" + x
+		}
 		return "v" + strings.TrimPrefix(x, "s")
+	case []int:
+		if len(x) == 2 && x[1] == x[0]+7 && x[0]%5 == 1 {
+			return "v" + strconv.Itoa(x[0])
+		}
+		return fmt.Sprintf("X:slice-%v", x)
+	case []string:
+		if len(x) == 2 && x[0] == "a" {
+			return "v" + strings.TrimPrefix(x[1], "s")
+		}
+		return fmt.Sprintf("X:slice-%v", x)
 	case []byte:
 		if x == nil {
 			return "vnil"
@@ -163,12 +179,18 @@ func c05NewTarget(kind string, idx int) *c05Target {
 			return c05Err(v)
 		}, callS: func(a int) string { return c05Render(f(a)) }}
 	case "fi":
+		// interface{} result: token v is configured as nil (v%5==0), as a typed slice that IS the value — []int{v, v+7} (v%5==1),
+		// []string{"a", "s<v>"} (v%5==2) —, as the string "s<v>" (v%5==3) or as the int v (v%5==4)
 		return &c05Target{fixed: -1, mocker: func(b *Builder) ExportedMocker { return b.Func(c05FI) },
 			val: func(v int) interface{} {
-				switch {
-				case v%5 == 0:
+				switch v % 5 {
+				case 0:
 					return nil
-				case v%2 == 0:
+				case 1:
+					return []int{v, v + 7}
+				case 2:
+					return []string{"a", "s" + strconv.Itoa(v)}
+				case 3:
 					return "s" + strconv.Itoa(v)
 				}
 				return v
@@ -269,7 +291,7 @@ func c05Cond(t *c05Target, s string) (kind byte, vals []interface{}) {
 		v, _ := strconv.Atoi(s[1:])
 		return 'e', c05Ifs(c05Args(v))
 	}
-	if t.fixed >= 0 && s[0] == 'i' {
+	if t.fixed >= 0 && s[0] == 'i' && s != "i" {
 		// In([]interface{}{a, b, …}, []interface{}{…}): every alternative is a whole argument list
 		for _, p := range strings.Split(s[1:], ",") {
 			v, _ := strconv.Atoi(p)
@@ -279,6 +301,9 @@ func c05Cond(t *c05Target, s string) (kind byte, vals []interface{}) {
 	}
 	if s == "y" {
 		return 'y', []interface{}{arg.Any()}
+	}
+	if s == "i" {
+		return 'i', nil // In() without any alternative: a stub that never matches
 	}
 	for _, p := range strings.Split(s[1:], ",") {
 		v, _ := strconv.Atoi(p)
@@ -394,6 +419,20 @@ func c05Seq(kind string, ops []string) (res string) {
 			return "bad-op"
 		}
 		k, a := op[:i], op[i+1:]
+		if k == "L" {
+			// run the rest of the history with goom's debug / trace logging switched on (closed again when the history ends)
+			switch a {
+			case "d":
+				OpenDebug()
+				defer CloseDebug()
+			case "t":
+				OpenTrace()
+				defer CloseTrace()
+			default:
+				return "bad-op"
+			}
+			continue
+		}
 		if k == "T" {
 			// switch to the other target of the same signature, mocked through the same builder
 			n, _ := strconv.Atoi(a)
